@@ -12,6 +12,8 @@ R5.4  text/binary bodies are not JSON-decoded: every function that emits `respon
 R5.5  no-content => None on the primary and the secondary path
 R5.7  the SSE runtime decoder itself: accumulator typestate and field parsing                 [rules shared with C18]
 R5.12 each branch of the multi-media-type decode chain accepts exactly its declared media type (equality, no widening)
+R5.13 the union decoder reads the discriminator from the type as given and keeps Annotated members whole                          [= R14.11]
+R5.14 the class name synthesized for an unnamed inline response body depends on the response (status), not on the operation alone
 R5.11 the streaming body yields raw bytes exactly when the strategy's return type (the annotated item type) is bytes
 R5.9  the handler's "is the named schema a type alias?" tests exclude what ModelVisitor's classification excludes (enums are classes)
 R5.8  every declared media type of a response passes the streaming classification in the loader
@@ -209,6 +211,11 @@ def run(repo: Repo, rep: Report, tier: str) -> None:
     _stream_classification(repo, rep)
     _alias_classification(repo, rep)
     rule_media_type_branches_exact(repo, rep, "R5.12")
+    # R5.13: a discriminated union response keeps its discriminator on the way into the decoder                               [= R14.11]
+    from rules.c14 import rule_metadata_from_the_given_type as _rmg513
+
+    _rmg513(repo, rep, "R5.13")
+    rule_one_name_per_response(repo, rep, "R5.14")
 
     # ---------------------------------------------------------------- R5.6 streaming delegation
     wsr = hmod.classes["EndpointResponseHandlerGenerator"].methods["_write_strategy_based_return"]
@@ -696,3 +703,71 @@ def rule_media_type_branches_exact(repo: Repo, rep: Report, rule: str = "R5.12")
                           f"the condition of a media type's branch is more than an equality with the declared type ({[w.strip() for w in widened] or 'no =='}): an answer sent with "
                           "another declared media type can be caught by this branch and decoded as the wrong model", fn.loc(c))
     rep.require(n >= 1, f"{rule}: no `if/elif content_type ...` template found in _write_content_type_conditional_handling (anchor)")
+
+
+# ------------------------------------------------------------------------------------------------ R5.14 one synthesized name per response
+_R514_EXAMPLE = '''
+def post_process(op, context):
+    for resp in op.responses:
+        for _, sch in resp.content.items():
+            if sch.name is None:
+                name = sanitize(op.operation_id + "Response")
+                sch.name = name
+                context.parsed_schemas[name] = sch
+'''
+
+
+def _response_name_hazards(fn_node: ast.AST):
+    """[(store statement, key text)] for every `<registry>[K] = <body schema>` inside `for r in <op>.responses: for .. in r.content...` whose
+    key K is computed without the response (nothing K depends on varies from one response of the operation to the next)."""
+    from rules._memo import name_closure
+
+    out, n = [], 0
+    for outer in ast.walk(fn_node):
+        if not (isinstance(outer, ast.For) and isinstance(outer.target, ast.Name) and any(isinstance(x, ast.Attribute) and x.attr == "responses" for x in ast.walk(outer.iter))):
+            continue
+        rv = outer.target.id
+        for inner in ast.walk(outer):
+            if not (isinstance(inner, ast.For) and inner is not outer and any(isinstance(x, ast.Attribute) and x.attr == "content" for x in ast.walk(inner.iter))
+                    and any(isinstance(x, ast.Name) and x.id == rv for x in ast.walk(inner.iter))):
+                continue
+            svars = {x.id for x in ast.walk(inner.target) if isinstance(x, ast.Name)}
+            for st in ast.walk(inner):
+                if not (isinstance(st, ast.Assign) and len(st.targets) == 1 and isinstance(st.targets[0], ast.Subscript) and isinstance(st.value, ast.Name) and st.value.id in svars):
+                    continue
+                key = st.targets[0].slice
+                # a key read from the schema itself (`sch.name` of an already named schema) is not a synthesized name
+                knames = {x.id for x in ast.walk(key) if isinstance(x, ast.Name)}
+                if knames & svars:
+                    continue
+                n += 1
+                deps = name_closure(fn_node, knames)
+                if rv not in deps and not (deps & svars):
+                    out.append((st, norm(key)))
+    return out, n
+
+
+def rule_one_name_per_response(repo: Repo, rep, rule: str = "R5.14") -> None:
+    """An inline response body without a name of its own gets a synthesized class name after parsing.  Every 2xx response of an operation can
+    need one, so the name must be derived from the response (its status code) as well as from the operation: a name computed from the
+    operation alone is shared by all of them, the registry keeps the last body only, and every status is decoded into that one model."""
+    hz, n = _response_name_hazards(ast.parse(_R514_EXAMPLE))
+    rep.require(len(hz) == 1 and n == 1, f"{rule}: the built-in positive example is no longer recognised - the rule is broken")
+    pp = repo.func("core.loader.operations.post_processor:post_process_operation")
+    from sa.flatten import flatten
+
+    fn = pp
+    hz, n = _response_name_hazards(fn.node)
+    if not n:
+        fn = flatten(pp)
+        hz, n = _response_name_hazards(fn.node)
+    if not n:
+        raise AnalysisError(f"{rule}: post_process_operation no longer registers synthesized response names (anchor)")
+    sub = f"{pp.module.relpath}:post_process_operation name synthesized for an inline response body"
+    if hz:
+        st, key = hz[0]
+        rep.violation(rule, sub, f"{pp.fq}|response-name-without-status|{key}",
+                      f"`{norm(st)[:70]}`: the name is computed from the operation only, so two responses of one operation (200 and 201) whose inline bodies both need a name "
+                      "share it - the registry keeps the last body and both statuses are decoded into that model (a conforming 200 body fails or loses its values)", fn.loc(st))
+    else:
+        rep.ok(rule, sub, f"{n} registration(s): the synthesized name depends on the response it belongs to", fn.loc())
